@@ -22,7 +22,8 @@
 //!                        iter_mut_for_sending(None) is sent, controller.on_retransmission_timeout,
 //!                        rtte.on_rto_timeout, Recovery::on_rto_timeout(last_sent), last_sent = its seq_nr, RTO mode
 //!   ["x"]                send_tx_queue, recovery branch (a transcription of `if let Some(rec) =
-//!                        self.recovery.recovering_mut() { .. }` with a transport that always accepts)
+//!                        self.recovery.recovering_mut() { .. }` with a transport that always accepts), behind the
+//!                        dispatcher's gate `if self.rto_retransmissions > 0 { return }` (RTO mode)
 //! The clock advances 10 ms before every call.
 //!
 //!   unit_recov replay <cases.ndjson> <answers.ndjson> [k n]
@@ -233,6 +234,10 @@ fn call(sut: &mut Sut, op: &Value) -> (i64, Vec<i64>) {
             }
         }
         "x" => {
+            // "We are in RTO retransmission mode, don't send anything."
+            if sut.blocked {
+                return (fr, rtx);
+            }
             let Sut { segs, rec, last, .. } = sut;
             if let Some(rec) = rec.recovering_mut() {
                 let high_rxt = rec.high_rxt;
